@@ -3,6 +3,7 @@ package sym
 // extras.go: tier bounds, known-finding regions, witnesses, static label scan, pinned replay.
 
 import (
+	"os"
 	"go/constant"
 	"math/big"
 	"strconv"
@@ -42,6 +43,13 @@ func registerExtras(p *Program) {
 		v := ex.FreshIntRange("in!"+label, year1Ns, year9999Ns)
 		ex.declareInput(v, v.S[3:])
 		return v
+	}
+	I[verifPkg+".Param"] = func(ex *Exec, fr *frame, fn *ssa.Function, a []Value) Value {
+		return StrC(os.Getenv("GOSYM_PARAM_" + constStr(a[0], "Param name")))
+	}
+	I[verifPkg+".NoSummaries"] = func(ex *Exec, fr *frame, fn *ssa.Function, a []Value) Value {
+		ex.noSummary = true
+		return nil
 	}
 	I[verifPkg+".Thorough"] = func(ex *Exec, fr *frame, fn *ssa.Function, a []Value) Value {
 		return BoolC(Tier == "thorough")
